@@ -219,6 +219,7 @@ func rh5Incremental(w *World) {
 		visit(b.Body, d)
 	}
 	w.floor("deletions from Executor.tasks", nDel, 1)
+	rh5Cleanup(w)
 	// Run: first statement RLock, second defer RUnlock
 	body := runFn.Decl.Body
 	okShape := false
@@ -755,3 +756,67 @@ func raIncremental(w *World) {
 }
 
 var _ = fmt.Sprintf
+
+// rh5Cleanup: EvictWithCleanup runs the caller's cleanup function while e.dirty is held exclusively
+// (atomically with the eviction), and the eviction walk never looks at task results: which tasks are
+// evicted depends only on the dependency graph, not on whether a task currently has a result.
+func rh5Cleanup(w *World) {
+	p := w.pkg(incRel)
+	ev := w.fn(incRel, "(*Executor).EvictWithCleanup")
+	resultFld := w.field(incRel, "task", "result")
+	if p == nil || ev == nil || resultFld == nil {
+		return
+	}
+	info := p.TypesInfo
+	g := buildCFG(info, ev.Decl.Body)
+	d := &Dataflow{G: g, Must: true, Init: Facts{}, Transfer: func(n ast.Node, in Facts) Facts { return lockTransfer(info, n, in) }}
+	d.Run()
+	found := false
+	d.Walk(func(_ *cfg.Block, n ast.Node, before Facts) {
+		inspectPost(n, func(x ast.Node) {
+			c, ok := x.(*ast.CallExpr)
+			if !ok {
+				return
+			}
+			if id, ok := ast.Unparen(c.Fun).(*ast.Ident); ok && id.Name == "cleanup" {
+				found = true
+				if before["W:e.dirty"] {
+					w.ok("cleanup-under-lock", c.Pos(), "the cleanup callback runs while e.dirty is held exclusively: no Run can observe the state between eviction and cleanup")
+				} else {
+					w.violation("cleanup-under-lock", c.Pos(), "the cleanup callback runs without the exclusive dirty lock (lock set "+before.String()+"): a concurrent Run can memoize stale inputs between the eviction and the cleanup")
+				}
+			}
+		})
+	})
+	if !found {
+		w.undecided("cleanup-under-lock|missing", ev.Decl.Pos(), "no call of the cleanup parameter found in EvictWithCleanup")
+	}
+	// result-agnostic eviction: no access to task.result in EvictWithCleanup or its module callees (getTask excepted: it only loads the task)
+	seen := map[*types.Func]bool{}
+	bad := 0
+	var visit func(fd *ast.FuncDecl, label string)
+	visit = func(fd *ast.FuncDecl, label string) {
+		ast.Inspect(fd.Body, func(x ast.Node) bool {
+			if _, ok := x.(*ast.GoStmt); ok {
+				return false // the debug-only logger goroutine is not part of the eviction decision
+			}
+			if e, ok := x.(ast.Expr); ok && selField(info, e) == resultFld {
+				bad++
+				w.violation("evict-result-agnostic|"+label, x.Pos(), "the eviction path reads task.result: whether a key is evicted must depend only on the dependency graph — a task whose leader panicked or was cancelled has no result but still has dependents that memoized its failure")
+			}
+			if c, ok := x.(*ast.CallExpr); ok {
+				if f := callee(info, c); f != nil && f.Pkg() == p.Types && !seen[f] {
+					seen[f] = true
+					if cfd := w.decls[f]; cfd != nil && cfd.Body != nil {
+						visit(cfd, funcName(f))
+					}
+				}
+			}
+			return true
+		})
+	}
+	visit(ev.Decl, ev.Name)
+	if bad == 0 {
+		w.ok("evict-result-agnostic", ev.Decl.Pos(), "EvictWithCleanup and its callees never read task.result: the evicted set is the upward closure of the given keys in the dependency graph")
+	}
+}
